@@ -327,10 +327,24 @@ def replay(path):
             else:
                 dec = UnionFindDecoder(code, em, 0.1)
             s = code.measure_syndrome(e)
-            c = np.asarray(dec.decode(s))
-            print('syndrome', s.tolist(), 'correction', c.tolist())
-            bad = c.shape != (2 * code.n,) or code.measure_syndrome((e + c.astype(np.uint8)) % 2).any() or \
-                (not s.any() and c.any())
+            # the engine stubs model buffers that may be stale from earlier calls: the counterexample is
+            # replayed on a fresh decoder and after each single-qubit-error syndrome (and the zero syndrome)
+            histories = [None, np.zeros(2 * code.n, dtype=np.uint8)] + \
+                [np.eye(2 * code.n, dtype=np.uint8)[i] for i in range(2 * code.n)]
+            for h in histories:
+                if h is not None:
+                    dec.decode(code.measure_syndrome(h))
+                for target in ([e] if h is None else [e, np.zeros_like(e)]):
+                    st = code.measure_syndrome(target)
+                    c = np.asarray(dec.decode(st))
+                    if c.shape != (2 * code.n,) or code.measure_syndrome((target + c.astype(np.uint8)) % 2).any() or \
+                            (not st.any() and c.any()):
+                        print('earlier call', None if h is None else h.tolist(), 'syndrome', st.tolist(),
+                              'correction', c.tolist())
+                        bad = True
+                        break
+                if bad:
+                    break
         else:
             res = worker(cfg)
             bad = any(o['oid'] == oid and o['verdict'] == 'sat' for o in res['obs'])
